@@ -943,3 +943,10 @@ pub fn arm_watchdog(secs: u64) {
         }
     });
 }
+
+/// path for re-executing this binary as a child process: /proc/self/exe keeps working when the
+/// file on disk is replaced by a rebuild while the check runs
+pub fn self_exe() -> std::path::PathBuf {
+    let p = std::path::PathBuf::from("/proc/self/exe");
+    if p.exists() { p } else { std::env::current_exe().expect("current_exe") }
+}
